@@ -31,15 +31,13 @@ def canonical_calls(calls, refs, caller):
     return out
 
 
-FIXED_EXPECT = {"module_cycle_with_definitions": ["x", "x.in_a", "x.in_b"], "self_import": ["x", "x.in_a"]}
+FIXED_EXPECT = {"module_cycle_with_definitions": ["x", "x.in_a", "x.in_b"], "self_import": ["x", "x.in_a"],
+                "reexport_cycle": ["x.y"]}      # a name re-exported in a cycle has no definition: it resolves to nothing, and the run ends normally
 
 
 def finding_classes(meta) -> set[str]:
     ks = set()
-    # a cycle of re-exports of one name (also through star imports: pkg/__init__ `from .b import *`, b `from pkg import f`):
-    # the resolver recurses without bound; known only when the model predicts the non-termination (checked by the caller)
-    if meta["project"] == "reexport_cycle" or str(meta["multi"].get("raised") or "").startswith("RecursionError"):
-        ks.add("KF_C06_4")
+
     for r in meta["refs"]:
         if r["form"] == "from_as":
             ks.add("KF_C06_1")
